@@ -66,11 +66,11 @@ func genShape(r *vx.Rand) shape {
 			s.exist[i] = false
 		}
 	}
-	// NOTE (reported as a suspect, reproduce with HUBRUN_CHECKONLY_EXISTS=1): an OPTIMISTIC ASYNC-COMMIT transaction whose check-only
-	// mutation (insert then delete) finds the key existing answers Commit with a definite key-exists error, but the check-only
-	// key is not among the primary's secondaries: if the other prewrites succeeded and the client's clean-up does not reach the
-	// store (crash, or a reader is faster), recovery finds every secondary locked and COMMITS the transaction.
-	if os.Getenv("HUBRUN_CHECKONLY_EXISTS") == "" && !s.pess && s.mode == "async" {
+	// An OPTIMISTIC ASYNC-COMMIT transaction whose check-only mutation (insert then delete) finds the key existing used to be a
+	// defect (repaired in /repo 7622a2e: such transactions no longer use async commit): Commit answered a definite key-exists
+	// error while recovery could still commit the remaining keys.  The case is generated like any other; HUBRUN_CHECKONLY_EXISTS=0
+	// switches it off.
+	if os.Getenv("HUBRUN_CHECKONLY_EXISTS") == "0" && !s.pess && s.mode == "async" {
 		for i := range s.keys {
 			if s.kinds[i] == "insdel" {
 				s.exist[i] = false
